@@ -1,13 +1,16 @@
 //! Jenkins hash algorithms for HET and BET tables
 //!
-//! This module contains both Jenkins hash algorithms used in MPQ v3+ archives:
-//! - Jenkins one-at-a-time: Used for BET table hashes
-//! - Jenkins hashlittle2: Used for HET table hashes
+//! This module contains two Jenkins hash algorithms:
+//! - Jenkins hashlittle2: the name hash of MPQ v3+ archives. Its top eight bits are
+//!   stored in the HET table (name hash 1), the remaining bits in the BET table (name
+//!   hash 2)
+//! - Jenkins one-at-a-time: not used by any MPQ table, kept as a utility
 
-/// Jenkins one-at-a-time hash function for BET tables
+/// Jenkins one-at-a-time hash function
 ///
-/// This is the original Jenkins one-at-a-time algorithm used by BET tables
-/// in MPQ v3+ archives. It produces a 64-bit hash value from the input filename.
+/// This is the original Jenkins one-at-a-time algorithm over the normalized filename,
+/// widened to 64 bits. No MPQ table stores it: the hashes of the BET table are the low
+/// bits of [`jenkins_hashlittle2`].
 pub fn jenkins_one_at_a_time(filename: &str) -> u64 {
     let mut hash: u64 = 0;
 
